@@ -1,6 +1,7 @@
 import Gsp.Model.Verify
 import Gsp.Lemmas.Smt
 import Gsp.Lemmas.HashCRWitness
+import Gsp.Lemmas.Resolve
 /-! C09 — revocation status validation accepts only verified non-revocation. -/
 namespace Gsp.Props.C09
 open Gsp Gsp.Smt Gsp.Verify
@@ -179,5 +180,74 @@ theorem httpStatus_ok_iff (code len : Nat) (parses : Bool) :
 
 /-- non-vacuity: the idealised-hash hypothesis used above is satisfiable (an explicit injective, never-zero function) -/
 theorem idealised_hash_exists : ∃ P : List Nat → Nat, Gsp.Smt.HashCR P := ⟨_, Gsp.Smt.hashCR_satisfiable⟩
+
+/-! ### which resolver answers (CredentialStatusResolverRegistry, resolveRevStatus; model M6b) -/
+section Registry
+open Gsp.Resolve
+
+/-- **Refinement of the registry to its history**: after any history of registrations, deletions and lookups on the
+    verifier's own registry and on the process-wide default one, the resolver asked about a status entry of type `t` is the
+    one last registered under *exactly* `t` in the registry in force (the verifier's own one when the option is given,
+    the default one otherwise); the lookup is an error when that registration was deleted or never happened -/
+theorem resolver_is_last_registered (own : Bool) (t : String) (pre : List Op) (s : St) :
+    run s (pre ++ [.resolve own t]) = run s pre ++ [some (lastWrite own t pre ((s.reg own).get t))] := by
+  rw [run_append]
+  congr 1
+  have := final_reg_spec own t pre s
+  cases own <;> simp_all [run, step, St.reg]
+
+/-- no registration of exactly that type in the registry in force: an error, whatever else is registered anywhere -/
+theorem unregistered_type_is_error (own : Bool) (t : String) (pre : List Op)
+    (hnone : ∀ o t' res, Op.register o t' res ∈ pre → ¬ (o = own ∧ t' = t)) :
+    run {} (pre ++ [.resolve own t]) = run {} pre ++ [some none] := by
+  rw [resolver_is_last_registered]
+  have hacc : (({} : St).reg own).get t = none := by cases own <;> rfl
+  rw [hacc, lastWrite_none own t pre hnone]
+
+/-- registrations and deletions of *other* types — however similar the names — change nothing for `t` -/
+theorem other_types_do_not_answer (own : Bool) (t : String) (pre mid : List Op) (s : St)
+    (hmid : ∀ op ∈ mid, match op with
+      | .register o t' _ => ¬ (o = own ∧ t' = t)
+      | .delete o t' => ¬ (o = own ∧ t' = t)
+      | .resolve _ _ => True) :
+    (run s (pre ++ mid ++ [.resolve own t])).getLast? = (run s (pre ++ [.resolve own t])).getLast? := by
+  rw [resolver_is_last_registered, resolver_is_last_registered, lastWrite_append]
+  simp only [List.getLast?_append, List.getLast?_singleton, Option.some_or]
+  congr 2
+  generalize lastWrite own t pre ((s.reg own).get t) = acc
+  induction mid with
+  | nil => rfl
+  | cons op mid ih =>
+    rw [lastWrite_skip own t op mid acc (hmid op (by simp))]
+    exact ih (fun op hm => hmid op (List.mem_cons_of_mem _ hm))
+
+/-- a verifier that brings its own registry is answered from it alone: the process-wide default registry — whatever was
+    registered there, before or in between — has no influence -/
+theorem own_registry_isolated (t : String) (pre : List Op) (s : St) (d : Registry) :
+    (run s (pre ++ [.resolve true t])).getLast? =
+      (run { s with dflt := d } (pre.filter (touches true) ++ [.resolve true t])).getLast? := by
+  rw [resolver_is_last_registered, resolver_is_last_registered]
+  simp only [List.getLast?_append, List.getLast?_singleton, Option.some_or]
+  congr 2
+  rw [← final_reg_spec, ← final_reg_spec]
+  rw [final_reg_filter true pre s { s with dflt := d } (by simp [St.reg])]
+
+/-- and without the option the default registry alone decides -/
+theorem default_registry_when_no_option (t : String) (pre : List Op) (s : St) (o : Registry) :
+    (run s (pre ++ [.resolve false t])).getLast? =
+      (run { s with own := o } (pre.filter (touches false) ++ [.resolve false t])).getLast? := by
+  rw [resolver_is_last_registered, resolver_is_last_registered]
+  simp only [List.getLast?_append, List.getLast?_singleton, Option.some_or]
+  congr 2
+  rw [← final_reg_spec, ← final_reg_spec]
+  rw [final_reg_filter false pre s { s with own := o } (by simp [St.reg])]
+
+/-- non-vacuity: two types that differ only in case, and two that share the fragment after '#', are different keys -/
+example : run {} [.register true "SparseMerkleTreeProof" 1, .register true "sparsemerkletreeproof" 2,
+      .register false "https://a.example/v#SparseMerkleTreeProof" 3,
+      .resolve true "SparseMerkleTreeProof", .resolve true "https://a.example/v#SparseMerkleTreeProof",
+      .resolve false "https://a.example/v#SparseMerkleTreeProof", .resolve false "SparseMerkleTreeProof"]
+    = [none, none, none, some (some 1), some none, some (some 3), some none] := by decide
+end Registry
 
 end Gsp.Props.C09
